@@ -237,7 +237,7 @@ PROPS = {
         shards={"quick": 8, "thorough": 16},
     ),
     "C17": dict(
-        pkg="./provider", test="TestVerifC17", model="C17", verdict="C17v", level="other", diff_is_failure=False,
+        pkg="./provider", test="TestVerifC17", model="C17", verdict="C17v", level="other", diff_is_failure=False, also=["C17u"],
         accept=lambda m, o: m == "-" or all((" " + t + " ") in (" " + o + " ") for t in m.split(" ")),
         rule="a case is a multi-cycle history on a real SweepingProvider (optionally behind the buffered wrapper; worker configurations "
              "default/1/2/8; replication factor 2-4) in virtual time over a simulated swarm of 3-32 peers with a closest-peers router and a "
@@ -279,6 +279,13 @@ PROPS = {
                  rule="several goroutines call Close on a fresh keystore (plain / resettable) at the same moment, tens of thousands of rounds; "
                       "none may panic", trusted=["timing decides whether a panic is met; none can be reported falsely"],
                  shards={"quick": 2, "thorough": 4}, gomaxprocs="8"),
+    # sibling harness of C17: the scheduling functions and the reprovide history called directly (not a property of its own)
+    "C17u": dict(pkg="./provider", test="TestVerifC17u", model="C17u", level="other", diff_is_failure=True,
+                 rule="a case is a sequence of schedulePrefixNoLock / unscheduleSubsumedPrefixesNoLock calls at arbitrary offsets of the cycle, "
+                      "reprovideTimeForPrefix and timeBetween evaluations, persisted reprovides, sleeps and loadRecentlyReprovidedRegions "
+                      "calls on a provider that holds only the scheduling state; the schedule's entries (prefix, slot) and the set of "
+                      "recently reprovided regions are compared with the model after every call",
+                 trusted=["synctest virtual clock; go-datastore map datastore"], shards={"quick": 4, "thorough": 8}),
     "C14p": dict(pkg="./provider", test="TestVerifC14p", model="C14", verdict="C14v", level="other", diff_is_failure=False, stateless=True,
                  accept=lambda m, o: m == "-" or m == o, rule="Close of the sweeping provider / buffered wrapper when idle, mid-cycle, with sends hanging (few or many recipients, 1-2 connections per worker), and offline", trusted=[], shards={"quick": 4, "thorough": 8},
                  # a Close that hangs behind a sync.Once cannot be seen by the bubble (a goroutine parked on a mutex is not durably
